@@ -623,6 +623,8 @@ func (c *c01l2) Step(w *sim.World, s *sim.Step) *Viol {
 		msg, att, where = x.Message, x.Attestation, "receive-message"
 	case *types.MsgReplaceMessage:
 		msg, att, where = x.OriginalMessage, x.OriginalAttestation, "replace-message"
+	case *types.MsgReplaceDepositForBurn:
+		msg, att, where = x.OriginalMessage, x.OriginalAttestation, "replace-deposit-for-burn"
 	default:
 		return nil
 	}
@@ -779,9 +781,17 @@ func nextC01L2(g *sim.G, i int) *sim.Op {
 		return op.WithMeta("stale", "1").WithMeta("anyvalid", "1")
 	default:
 		by := sim.Acct(g.Acct("by"))
-		replace := g.Pct("replace", 30)
+		replace := g.Pct("replace", 40)
+		repdep := replace && g.Pct("repdep", 40)
 		var msg []byte
-		if replace {
+		if repdep {
+			// a burn message in the module's name with the submitter as depositor (A3 lifted here on purpose)
+			body, _ := refcodec.EncodeBurn(&refcodec.Burn{Version: 0, BurnToken: attest.Keccak([]byte(strings.ToLower(w.Model.L.Denom))), MintRecip: g.NonZero32("bmr", by),
+				Amount: g.PosAmount("bamt"), MsgSender: sim.Pad32(sdk.MustAccAddressFromBech32(by))})
+			m := &refcodec.Message{Version: 0, Source: 4, Dest: g.Domain("dest"), Nonce: uint64(g.Int("n", 0, 1<<30)), Sender: sim.Pad32(sim.ModuleAddrBytes()),
+				Recip: g.NonZero32("rc", by), Caller: make([]byte, 32), Body: body}
+			msg, _ = refcodec.EncodeMessage(m)
+		} else if replace {
 			// an own outbound-looking message (A3 lifted here on purpose)
 			m := &refcodec.Message{Version: 0, Source: 4, Dest: g.Domain("dest"), Nonce: uint64(g.Int("n", 0, 1<<30)), Sender: sim.Pad32(sdk.MustAccAddressFromBech32(by)),
 				Recip: g.NonZero32("rc", by), Caller: make([]byte, 32), Body: g.Bytes("body", g.Int("bl", 0, 40))}
@@ -807,7 +817,9 @@ func nextC01L2(g *sim.G, i int) *sim.Op {
 		}
 		att, truth, anyValid := p.build(msg, en, w.Model.Thr)
 		var op *sim.Op
-		if replace {
+		if repdep {
+			op = sim.TxOp("repdep", &types.MsgReplaceDepositForBurn{From: by, OriginalMessage: msg, OriginalAttestation: att, NewDestinationCaller: make([]byte, 32), NewMintRecipient: g.NonZero32("nmr", by)})
+		} else if replace {
 			op = sim.TxOp("replace", &types.MsgReplaceMessage{From: by, OriginalMessage: msg, OriginalAttestation: att, NewMessageBody: g.Bytes("nb", 3), NewDestinationCaller: make([]byte, 32)})
 		} else {
 			op = sim.TxOp("recv", &types.MsgReceiveMessage{From: by, Message: msg, Attestation: att})
@@ -844,7 +856,7 @@ var C01L2 = register(&HistProp{ID: "C01",
 		return g
 	},
 	Next: nextC01L2, MinOps: 4, MaxOps: 30, New: func() Checker { return &c01l2{} },
-	Require: []string{"nontrivial", "receive-message:accepted", "replace-message:accepted", "receive-message:rejected-attestation", "replace-message:rejected-attestation", "signed-before-rotation", "plan:honest", "plan:tampered", "plan:rolled-back-enable", "plan:rolled-back-disable"}})
+	Require: []string{"nontrivial", "receive-message:accepted", "replace-message:accepted", "receive-message:rejected-attestation", "replace-message:rejected-attestation", "replace-deposit-for-burn:accepted", "replace-deposit-for-burn:rejected-attestation", "signed-before-rotation", "plan:honest", "plan:tampered", "plan:rolled-back-enable", "plan:rolled-back-disable"}})
 
 // Native fuzz target (thorough): attestation bytes against a fixed configuration, reference verifier as oracle.
 func fuzzAttestation(f *testing.F) {
